@@ -150,7 +150,7 @@ class _Proc:
                 f.write("\n")
         self.err = open(self.errpath, "wb")
         self.p = subprocess.Popen([exe, self.path, "--witness", self.witness],
-                                  stdout=subprocess.PIPE, stderr=self.err, env=_env(cfg),
+                                  stdout=subprocess.PIPE, stderr=self.err, env=dict(_env(cfg), VERIF_WORKDIR=workdir),
                                   bufsize=1 << 16)
         self.last = time.time()
         self.hung = False
@@ -194,6 +194,22 @@ def assign_time_zones(cases):
         h = _z.crc32(str(c.get("id")).encode())
         if h % 4 == 0:
             ops[0]["tz"] = TZ_POOL[(h // 4) % len(TZ_POOL)]
+
+
+def assign_storage(cases):
+    """One case in five that asks for a temporary (in-memory) library gets an on-disk one instead, in a directory under
+    the runner's scratch area ("@W/<id>", resolved, made and removed by the executor); the choice travels in the op."""
+    import zlib as _z
+    for c in cases:
+        ops = c.get("ops") or []
+        if not ops or c.get("no_disk") or ops[0].get("op") not in ("create_temporary", "lib_create_temporary"):
+            continue
+        if any(o.get("lib") for o in ops):
+            continue
+        if _z.crc32(("s" + str(c.get("id"))).encode()) % 5 == 0:
+            ops[0]["op"] = "create" if ops[0]["op"] == "create_temporary" else "lib_create"
+            ops[0]["dir"] = "@W/" + str(c.get("id"))
+            ENV_STATS["cases_moved_to_an_on_disk_library"] = ENV_STATS.get("cases_moved_to_an_on_disk_library", 0) + 1
 
 
 def _run_chunk(exe, cfg, cases, workdir, tag, stall_timeout, on_result):
@@ -281,6 +297,7 @@ def run_cases(cases, cfg="plain", jobs=None, stall_timeout=60, on_result=None, c
     jobs = jobs or min(16, os.cpu_count() or 4)
     cases = list(cases)
     assign_time_zones(cases)
+    assign_storage(cases)
     for c in cases:
         tz = (c.get("ops") or [{}])[0].get("tz")
         if tz:
